@@ -145,6 +145,10 @@ def rng_confinement(ctx, rule='C09-R2'):
                   'consumes or depends on the caller\'s random state',
                   instance=f'{q}: unprotected consumer' + (f' via {via}' if via else ''))
     reach = processing_path(fx)
+    ctx.check(TMP_SEED not in reach, rule, TMP_SEED, 'processing path', '',
+              'tmp_seed() - which re-seeds and later overwrites the process-wide NumPy generator - is reachable from '
+              'the processing path: two chunks processed concurrently re-seed / restore each other\'s generator',
+              instance='tmp_seed not reachable from run()/CeiloChunk')
     hit = sorted(set(unprot) & reach)
     ctx.check(not hit, rule, hit[0] if hit else 'ampycloud.core.run', 'processing path', '',
               f'global-generator consumers reachable from the processing path: {hit}',
